@@ -66,6 +66,12 @@ Fixpoint shapes_eqb (a b : list (list nat)) : bool :=
   match a, b with [], [] => true | x :: a', y :: b' => nat_list_eqb x y && shapes_eqb a' b' | _, _ => false end.
 
 Definition case := (nat * op * res (list (list nat)))%type.
-Definition agree (c : case) : bool := let '(_, o, expected) := c in oracle_ok o && res_eqb shapes_eqb (run o) expected.
+Definition agree (c : case) : bool :=
+  let '(_, o, expected) := c in
+  match run o, expected with
+  | Err, Err => true                                   (* rejected before / regardless of the oracle answer *)
+  | Ok a, Ok b => oracle_ok o && shapes_eqb a b
+  | _, _ => false
+  end.
 Definition ident (c : case) : nat := let '(i, _, _) := c in i.
 Definition failing := failing_ids agree ident.
